@@ -5,6 +5,9 @@ From Coq Require Import List ZArith Bool Floats.
 From VLib Require Import Codec Machine.
 From VModel Require Import WRR.
 From VProof Require Import WRR_proofs.
+From Coq Require Import Reals.
+From Flocq Require Core.Core.
+From VProof Require Flt_proofs WRRFlt_proofs.
 Import ListNotations.
 Open Scope Z_scope.
 
@@ -39,6 +42,31 @@ Theorem C36_window_is_65535_generations : forall n s i, 0 < n -> 0 <= i < n ->
 Proof. exact window_generations. Qed.
 Print Assumptions C36_window_is_65535_generations.
 
+(* List level, on the picked sequence numbers themselves: among the 65535*n sequence numbers
+   ctr+1 .. ctr+65535*n (below 2^32) the picked ones address backend i exactly w_i times
+   ([wpicks] = the backends of the picked sequence numbers, in order). *)
+Theorem C36_window_count : forall ws i ctr,
+  (0 < zlen ws < 2 ^ 32 /\ forall i, 0 <= i < zlen ws -> 0 <= nthz ws i <= maxWeight) ->
+  0 <= i < zlen ws -> 0 <= ctr -> ctr + maxWeight * zlen ws < 2 ^ 32 ->
+  cnt i (wpicks ws ctr (Z.to_nat (maxWeight * zlen ws))) = nthz ws i.
+Proof. exact window_count. Qed.
+Print Assumptions C36_window_count.
+
+(* ... and through the nextIndex loop: if some weight is 65535, the sum(ws) successive
+   nextIndex calls after picker.idx = ctr (any fuel >= n for the loop) consume only sequence
+   numbers of that window, each call at most n of them, and the indices they return contain
+   backend i exactly w_i times (out = [idx1; used1; idx2; used2; ...]). *)
+Theorem C36_calls_consume_window : forall ws j fuel ctr,
+  (0 < zlen ws < 2 ^ 32 /\ forall i, 0 <= i < zlen ws -> 0 <= nthz ws i <= maxWeight) ->
+  (0 <= j < zlen ws /\ nthz ws j = maxWeight) ->
+  (Z.to_nat (zlen ws) <= fuel)%nat -> 0 <= ctr -> ctr + maxWeight * zlen ws < 2 ^ 32 ->
+  let out := edf_calls fuel (Z.to_nat (sumz ws)) ws ctr in
+  (forall i, 0 <= i < zlen ws -> cnt i (evens out) = nthz ws i) /\
+  Forall (fun u => 1 <= u <= zlen ws) (odds out) /\
+  sumz (odds out) <= maxWeight * zlen ws.
+Proof. exact calls_consume_window. Qed.
+Print Assumptions C36_calls_consume_window.
+
 (* The sentence is false for a window that crosses the uint32 wrap of picker.idx (clause 6,
    finding F-C36-wrr-u32-wrap): n = 2, weights [65535; 3], window starting 999 sequence
    numbers before 2^32: backend 1 sees generations 2^31-500..2^31-1 then 0..65034 and is
@@ -70,6 +98,20 @@ Theorem C36_fallback : forall ws, let n := zlen ws in
      2 <= n - nzero ws /\ zlen wts = n /\ Forall (fun w => 0 <= w <= maxWeight) wts).
 Proof. exact new_scheduler_fallback. Qed.
 Print Assumptions C36_fallback.
+
+(* float64 scaling of newScheduler: for every finite weight max > 0 (real value a, [FR max a])
+   such that 65535/max does not overflow, scalingFactor*max = fl(fl(65535/max)*max) is finite
+   and within 2^-30 of 65535, so math.Round gives exactly 65535: an EDF scheduler always has a
+   backend of weight 65535 (hypothesis of C36_terminates_n).  When 65535/max overflows
+   (max < about 2^-1008) every scaled weight is uint16(+Inf) = 0 = mean on amd64 and
+   newScheduler falls back to round robin (observed on the real code, driver case 5). *)
+Theorem C36_max_scaled_is_M : forall (m : PrimFloat.float) (a : Rdefinitions.R),
+  Flt_proofs.FR m a -> (0 < a)%R ->
+  (Rbasic_fun.Rabs (Flt_proofs.rnd (65535 / a)) < Raux.bpow Zaux.radix2 1024)%R ->
+  exists p, Flt_proofs.FR (PrimFloat.mul (PrimFloat.div (fz maxWeight) m) m) p /\
+            (Rbasic_fun.Rabs (p - 65535) <= / 1073741824)%R.
+Proof. exact WRRFlt_proofs.max_scaled_is_M. Qed.
+Print Assumptions C36_max_scaled_is_M.
 
 (* the round robin scheduler: the j-th call returns (ctr + j) mod n (below the uint32 wrap) *)
 Theorem C36_rr : forall n k ctr, 0 <= ctr -> ctr + Z.of_nat k < 2 ^ 32 ->
@@ -105,8 +147,8 @@ Theorem C36_weight_usable : forall e now expir blackout,
 Proof. exact weight_usable. Qed.
 Print Assumptions C36_weight_usable.
 
-(* The executable predicate evaluated on implementation traces (all clauses except the
-   whole-call clauses 5 and 6, which are evaluated on traces only; 6 is refuted) holds on every model trace. *)
+(* The executable predicate evaluated on implementation traces (all clauses, including the
+   whole-call clause 5, except the refuted clause 6) holds on every model trace. *)
 Theorem C36_holds_on_every_model_trace : forall ops, forallb op_wf ops = true ->
   exists obs, run ops = Some obs /\ holds_b ops obs = true.
 Proof. exact model_trace_holds. Qed.
